@@ -41,6 +41,9 @@ type seqStep struct {
 	// N is the target size of a probe: the honest request computed from the OBSERVED stored state.
 	N   int `json:"n,omitempty"`
 	Ext int `json:"ext,omitempty"` // probe: the honest checkpoint carries extension lines
+	// Hold names a storage call (WriteOps | GetLatest | Set): the update's context is cancelled while that call is held inside the
+	// storage wrapper, then the call is released. Whatever Update answers, a refusal must have no effect, also later.
+	Hold string `json:"hold,omitempty"`
 }
 
 type seqRun struct {
@@ -355,7 +358,46 @@ func execPhase(base *world.World, tag string, phase int, steps []seqStep, storeK
 			var ret []byte
 			var uerr error
 			hung := false
-			if fl != nil {
+			heldNote := ""
+			if fl != nil && s.Hold != "" {
+				cctx, cancel := context.WithCancel(ctx)
+				reached, release := fl.armHold(s.Hold)
+				done := make(chan struct{})
+				go func() {
+					ret, uerr = wit.Update(cctx, c.LogID, c.OldSize, c.CP, c.Proof)
+					close(done)
+				}()
+				arrived := false
+				select {
+				case <-reached:
+					arrived = true
+				case <-done:
+				case <-time.After(10 * time.Second):
+				}
+				cancel()
+				early := false
+				if arrived {
+					select {
+					case <-done:
+						early = true // Update answered while its storage call was still in progress
+					case <-time.After(150 * time.Millisecond):
+					}
+				}
+				release()
+				select {
+				case <-done:
+				case <-time.After(20 * time.Second):
+					hung = true
+				}
+				if early {
+					// whatever was left running behind the answer gets the time to finish before the state is read
+					for t0 := time.Now(); time.Since(t0) < 2*time.Second && !fl.saw("Close"); {
+						time.Sleep(5 * time.Millisecond)
+					}
+					time.Sleep(20 * time.Millisecond)
+				}
+				heldNote = fmt.Sprintf(" ctx cancelled while %s was in progress (reached=%v answered-before-release=%v)", s.Hold, arrived, early)
+			} else if fl != nil {
 				done := make(chan struct{})
 				go func() {
 					ret, uerr = wit.Update(ctx, c.LogID, c.OldSize, c.CP, c.Proof)
@@ -374,6 +416,9 @@ func execPhase(base *world.World, tag string, phase int, steps []seqStep, storeK
 			openTx, inUse := 0, 0
 			if fl != nil {
 				fired, calls = fl.disarm()
+				if s.Hold != "" {
+					fired = append(fired, "ctx-cancel")
+				}
 				if st.hook != nil {
 					fired = append(fired, st.hook.disarm()...)
 					openTx = st.hook.open()
@@ -401,7 +446,7 @@ func execPhase(base *world.World, tag string, phase int, steps []seqStep, storeK
 				FRun: fl != nil, Fired: nonNil(fired), Calls: nonNil(calls), OpenTx: openTx, InUse: inUse,
 				Stored: project(w, post), LogList: abstractLogs(w, post.logs), Unchanged: pre.equal(post),
 				RefOK: "na", Ctr: map[string]Ctr{},
-				Conc: fmt.Sprintf("old=%d size=%d proof=%d %s", c.OldSize, c.Size, len(c.Proof), c.Note)}
+				Conc: fmt.Sprintf("old=%d size=%d proof=%d %s", c.OldSize, c.Size, len(c.Proof), c.Note) + heldNote}
 			prevRaw, hadPrev := pre.raw[s.Log]
 			newRaw, hasNew := post.raw[s.Log]
 			isPrev := hadPrev && len(ret) > 0 && string(ret) == string(prevRaw)
